@@ -51,7 +51,7 @@ class PoolAdapter:
         self.pool = bp.Pool(
             processes=c['Procs'], threads=False, context=fw.FakeContext(self.world),
             timeout=c['PoolHard'] or None, soft_timeout=c['PoolSoft'] or None,
-            lost_worker_timeout=c['Grace'], putlocks=c['PutLocks'],
+            lost_worker_timeout=c['Grace'] + 3, putlocks=c['PutLocks'],     # every job carries its own (Grace)
             max_restarts=c['MaxR'] or None, max_restart_freq=c['MaxT'],
             maxtasksperchild=c['Quota'] or None, enable_timeouts=True,
             on_timeout_set=self._on_tset, on_timeout_cancel=self._on_tcancel)
@@ -150,7 +150,8 @@ class PoolAdapter:
 
         h = self.pool.apply_async(task, (j,), callback=cb, error_callback=ecb,
                                   accept_callback=acb, timeout_callback=tcb,
-                                  soft_timeout=soft or None, timeout=hard or None)
+                                  soft_timeout=soft or None, timeout=hard or None,
+                                  lost_worker_timeout=self.c['Grace'])
         if expect_refused:
             if h is not None:
                 raise AssertionError('closed pool accepted a job')
@@ -380,6 +381,8 @@ class PoolAdapter:
                         out = 'lost-wrongjob'
                 elif isinstance(exc, TimeLimitExceeded):
                     out, oarg = 'timelimit', exc.args[0] if exc.args else 0
+                    if not isinstance(oarg, int) or isinstance(oarg, bool):
+                        oarg = int(oarg) if isinstance(oarg, float) and oarg == int(oarg) else 9999
                 elif isinstance(exc, Terminated):
                     out, oarg = 'terminated', -(exc.args[0] if exc.args else 0)
                 else:
